@@ -217,6 +217,58 @@ def data_truthiness(ci, exempt_params=('self', 'limit')):
   return bad
 
 
+def truthiness_in_function(fn_node, params):
+  """[(node, text)] truthiness tests on data in a scalar function: the
+  operand of if / while / and / or / not / a comprehension filter is a
+  parameter, a value computed from one, or an element of such a value."""
+  data = set(params)
+  changed = True
+  body = fn_node.body if isinstance(fn_node.body, list) else [fn_node.body]
+  nodes = [x for st in body for x in ast.walk(st)]
+
+  def mentions(e):
+    return any(isinstance(n, ast.Name) and n.id in data for n in ast.walk(e))
+  while changed:
+    changed = False
+    for x in nodes:
+      tg = None
+      if isinstance(x, ast.Assign) and len(x.targets) == 1 and mentions(x.value):
+        tg = x.targets[0]
+      elif isinstance(x, (ast.For, ast.comprehension)) and mentions(x.iter):
+        tg = x.target
+      if tg is not None:
+        for n in ast.walk(tg):
+          if isinstance(n, ast.Name) and n.id not in data:
+            data.add(n.id)
+            changed = True
+
+  def operands(e):
+    if isinstance(e, ast.BoolOp):
+      return [o for v in e.values for o in operands(v)]
+    if isinstance(e, ast.UnaryOp) and isinstance(e.op, ast.Not):
+      return operands(e.operand)
+    return [e]
+  tests = []
+  for x in nodes:
+    if isinstance(x, (ast.If, ast.While, ast.IfExp, ast.Assert)):
+      tests.append(x.test)
+    elif isinstance(x, ast.BoolOp):
+      tests.append(x)
+    elif isinstance(x, ast.UnaryOp) and isinstance(x.op, ast.Not):
+      tests.append(x)
+    elif isinstance(x, ast.comprehension):
+      tests.extend(x.ifs)
+  bad, seen = [], set()
+  for t in tests:
+    for o in operands(t):
+      if isinstance(o, (ast.Compare, ast.Call, ast.Constant)):
+        continue
+      if _is_data(o, data, strict=True) and norm(o) not in seen:
+        seen.add(norm(o))
+        bad.append((o, norm(o, 50)))
+  return bad
+
+
 def _is_data(e, data, strict=False):
   """Expression denotes a data value: a data name, or an element read from
   self.result (self.result[i], self.result[i][j])."""
@@ -418,6 +470,8 @@ def run(chk):
            'its compilation - the returned name is the one tested or '
            'numbered, and the one recorded', min_instances=2)
   fresh_names(chk, 'C07-R3')
+  from rules.c02 import combine_disambiguation_total
+  combine_disambiguation_total(chk, 'C07-R3')
   chk.rule('C07-R1', 'aggregate UDFs return the same value for every arrival '
            'order of their rows (List element order, ANY_VALUE and ties of '
            'ArgMin/ArgMax excepted)', min_instances=5)
